@@ -93,6 +93,10 @@ func (s *socket) send() {
 
 		// Schedule retransmission for the future.
 		c.lastPipe = p
+		if c.resendTimer != nil {
+			c.resendTimer.Stop()
+			c.resendTimer = nil
+		}
 		if c.resendTime > 0 {
 			id := c.reqID
 			c.resendTimer = time.AfterFunc(c.resendTime, func() {
